@@ -324,6 +324,15 @@ static int run_c14_plan(C14Plan &pl, Prng &r, bool c16_checks) {
     }
     pos[c]++;
   }
+  bool dict_first = g_mode == "C07" && (mix64(g_run_seed, 0xd7) % 4 == 0) && !c16_checks;
+  if (dict_first) {
+    // C07: destroy order -- the dictionary goes first, the iterators it handed out afterwards
+    // (their destructors may only touch what they own)
+    begin("var", "destroy-dictionary-before-its-iterators");
+    delete shared; shared = nullptr;
+    begin("var", "destroy-iterators-after-dictionary");
+    g_stats["dictionary_destroyed_before_iterators"]++;
+  }
   for (auto &s : cs) s.close_all();
   if (c16_checks && savable) {
     // the object must still be savable and destroyable after the unsupported calls
@@ -438,8 +447,8 @@ static int run_c08(Prng &r, int kind_forced, const std::string &ops_override) {
   std::string ops = ops_override;
   if (ops.empty()) {
     int n = (int)r.range(1, 6);
-    static const char alphabet[] = "SSBIRLLG";
-    for (int i = 0; i < n; i++) ops += alphabet[r.below(8)];
+    static const char alphabet[] = "SSBIRLLGK";
+    for (int i = 0; i < n; i++) ops += alphabet[r.below(9)];
   }
   uint opt = takes_load_option(t.kind) ? (uint)r.range(1, 3) : 1;
   g_spec += "|triple=" + triple_str(t) + "|ops=" + ops + "|opt=" + std::to_string(opt) + "|battery=" + std::to_string((int)with_battery);
@@ -528,6 +537,20 @@ static int run_c08(Prng &r, int kind_forced, const std::string &ops_override) {
       delete A2;
       g_obs.add("img:" + tag, dig_bytes(img));
       if (img != img1) { emit("violation", "rebuild_differs", "C08.d " + triple_str(t) + " two builds from the same input: " + first_diff(img1, img)); return 1; }
+      break;
+    }
+    case 'K': {
+      // the internal buffer reservation (MEMALLOC knob) is not a build parameter: it must not show in the image
+      begin("var", "rebuild-with-other-reservation");
+      Params p2 = t.p;
+      static const unsigned long mems[] = {1, 2, 7, 64, 4096, 32768, 3, 16, 256};
+      do { p2.memalloc = mems[r.below(9)]; } while (p2.memalloc == t.p.memalloc);
+      StringDictionary *A3 = build_dict(t.kind, t.ss.v, p2);
+      std::string img = save_image(A3, 4096);
+      delete A3;
+      g_obs.add("img:" + tag, dig_bytes(img));
+      if (img != img1) { emit("violation", "image_depends_on_buffer_reservation", "C08.d " + triple_str(t) + " built again with MEMALLOC=" + std::to_string(p2.memalloc) + ": " + first_diff(img1, img)); return 1; }
+      g_stats["rebuilds_with_other_knob"]++;
       break;
     }
     case 'L': case 'G': {
